@@ -145,7 +145,19 @@ func init() {
 
 func writersUnits(prop, tier string) []eng.Unit {
 	var scs []scenario
-	for _, ws := range writersScenarios() {
+	all := writersScenarios()
+	if prop == "C06" {
+		// the channel logger's view of the same stream (cloned buffers) for the scenarios
+		// with a multi-block transaction
+		for _, ws := range writersScenarios() {
+			if ws.name == "merge-both-blocks||put+delete" || ws.name == "commit||rollback||failing-insert" {
+				ws.clone = true
+				ws.name = "channel/" + ws.name
+				all = append(all, ws)
+			}
+		}
+	}
+	for _, ws := range all {
 		b := 2
 		if len(ws.threads) == 2 && !ws.snap {
 			b = 3
